@@ -544,6 +544,7 @@ def structures(draw, max_res=40, min_res=2, allow_ball=True, allow_hetero=True, 
             grid = Grid(prot_atoms)
             hnum = 900
             prev = None
+            prev_anchor = None
             for _ in range(nhet):
                 if prev is not None and draw(st.integers(0, 2)) == 0:
                     # a second copy of the same molecule in the same chain (labels of its groups then coincide)
@@ -557,6 +558,9 @@ def structures(draw, max_res=40, min_res=2, allow_ball=True, allow_hetero=True, 
                     resn, mol = LIGANDS[key]["resn"], LIGANDS[key]["atoms"]
                     kindl = "lig:" + key
                 anchor = prot_atoms[draw(st.integers(0, len(prot_atoms) - 1))]
+                if prev is not None and (resn, mol, kindl) == prev[:3] and prev_anchor is not None:
+                    anchor = prev_anchor          # both copies then act on the same groups
+                prev_anchor = anchor
                 dist = draw(st.integers(2700, 7000))
                 d0 = draw(st.integers(0, len(DIRECTIONS) - 1))
                 rot = pdbio.ROTATIONS[draw(st.integers(0, 23))]
